@@ -194,7 +194,7 @@ func (e *Extractor) flagExits(info *types.Info, stmts []ast.Stmt) []ast.Stmt {
 	hit := false
 	for i, s := range stmts {
 		if i > 0 {
-			if _, _, ok := e.errTest(info, s); ok {
+			if _, _, ok := e.exitOf(info, s); ok {
 				hit = true
 			}
 		}
@@ -225,20 +225,103 @@ func (e *Extractor) flagExits(info *types.Info, stmts []ast.Stmt) []ast.Stmt {
 	}
 	out := make([]ast.Stmt, len(flat))
 	copy(out, flat)
-	for i := 0; i+1 < len(out); i++ {
-		a, ok := out[i].(*ast.IfStmt)
+	for t := 1; t < len(out); t++ {
+		v, body, ok := e.exitOf(info, out[t])
 		if !ok {
 			continue
 		}
-		v, body, ok := e.errTest(info, out[i+1])
-		if !ok {
-			continue
-		}
-		if na, changed := e.addExit(info, a, v, body); changed {
-			out[i] = na
+		// the statement before the exit, and before it any number of guards
+		// `if V == nil { ... }`: once V holds an error they are all skipped
+		for i := t - 1; i >= 0; i-- {
+			ifs, isIf := out[i].(*ast.IfStmt)
+			if !isIf {
+				break
+			}
+			if e.guardOn(info, ifs, v) {
+				if nl, changed := e.exitInTail(info, ifs.Body.List, v, body); changed {
+					out[i] = &ast.IfStmt{If: ifs.If, Cond: ifs.Cond, Body: &ast.BlockStmt{Lbrace: ifs.Body.Lbrace, List: nl, Rbrace: ifs.Body.Rbrace}}
+				}
+				continue
+			}
+			if na, changed := e.addExit(info, ifs, v, body); changed {
+				out[i] = na
+			}
+			break
 		}
 	}
 	return out
+}
+
+// exitOf: s is where a pending error in V leaves the function: the test
+// `if V != nil { error exit }`, or `return ..., V` itself.
+func (e *Extractor) exitOf(info *types.Info, s ast.Stmt) (types.Object, []ast.Stmt, bool) {
+	if v, body, ok := e.errTest(info, s); ok {
+		return v, body, true
+	}
+	ret, ok := s.(*ast.ReturnStmt)
+	if !ok || len(ret.Results) == 0 {
+		return nil, nil, false
+	}
+	id, ok := ast.Unparen(ret.Results[len(ret.Results)-1]).(*ast.Ident)
+	if !ok || !isErrIdent(info, id) || info.Uses[id] == nil {
+		return nil, nil, false
+	}
+	for _, r := range ret.Results[:len(ret.Results)-1] {
+		// the other results of the error return must not consume anything
+		if len(e.peekTokens(info, r)) > 0 {
+			return nil, nil, false
+		}
+	}
+	return info.Uses[id], []ast.Stmt{ret}, true
+}
+
+// peekTokens reports whether evaluating x would produce tokens, without
+// recording anything (calls only).
+func (e *Extractor) peekTokens(info *types.Info, x ast.Expr) []ast.Node {
+	var out []ast.Node
+	ast.Inspect(x, func(n ast.Node) bool {
+		if c, ok := n.(*ast.CallExpr); ok {
+			if tv, isConv := info.Types[c.Fun]; !(isConv && tv.IsType()) {
+				if _, isBuiltin := core.Callee(info, c).(*types.Builtin); !isBuiltin {
+					out = append(out, c)
+				}
+			}
+		}
+		return true
+	})
+	return out
+}
+
+// guardOn: `if V == nil { ... }` without init and else.
+func (e *Extractor) guardOn(info *types.Info, ifs *ast.IfStmt, v types.Object) bool {
+	if ifs.Init != nil || ifs.Else != nil || errCond(info, ifs.Cond) != -1 {
+		return false
+	}
+	be := ast.Unparen(ifs.Cond).(*ast.BinaryExpr)
+	for _, x := range []ast.Expr{be.X, be.Y} {
+		if id, ok := ast.Unparen(x).(*ast.Ident); ok && info.Uses[id] == v {
+			return true
+		}
+	}
+	return false
+}
+
+// exitInTail applies addExit to the statement in tail position of a list.
+func (e *Extractor) exitInTail(info *types.Info, list []ast.Stmt, v types.Object, body []ast.Stmt) ([]ast.Stmt, bool) {
+	if len(list) == 0 {
+		return list, false
+	}
+	switch last := list[len(list)-1].(type) {
+	case *ast.IfStmt:
+		if n, ok := e.addExit(info, last, v, body); ok {
+			return append(append([]ast.Stmt{}, list[:len(list)-1]...), n), true
+		}
+	case *ast.BlockStmt:
+		if nl, ok := e.exitInTail(info, last.List, v, body); ok {
+			return append(append([]ast.Stmt{}, list[:len(list)-1]...), &ast.BlockStmt{Lbrace: last.Lbrace, List: nl, Rbrace: last.Rbrace}), true
+		}
+	}
+	return list, false
 }
 
 // errTest recognises `if V != nil { <error exit> }` (no init, no else) and
@@ -663,4 +746,75 @@ func linCount(info *types.Info, x *ast.ForStmt) (bound ast.Expr, off int64, ok b
 		return bound == nil
 	})
 	return bound, off, bound != nil
+}
+
+// onlyBreak: the block is a single unlabelled break.
+func onlyBreak(b *ast.BlockStmt) bool {
+	if b == nil || len(b.List) != 1 {
+		return false
+	}
+	br, ok := b.List[0].(*ast.BranchStmt)
+	return ok && br.Tok == token.BREAK && br.Label == nil
+}
+
+// mayBeNilCall: x is a call (possibly wrapped in errors.Trace) of something
+// other than an error constructor: its result may well be nil.
+func (e *Extractor) mayBeNilCall(info *types.Info, x ast.Expr) bool {
+	call, ok := ast.Unparen(x).(*ast.CallExpr)
+	if !ok {
+		return false
+	}
+	f := core.CalleeFunc(info, call)
+	if f != nil && f.Pkg() != nil {
+		switch f.Pkg().Path() {
+		case "fmt", "errors", core.Module + "/pkg/libs/errors":
+			switch f.Name() {
+			case "Errorf", "New", "Static":
+				return false
+			case "Trace":
+				if len(call.Args) == 1 {
+					return e.mayBeNilCall(info, call.Args[0])
+				}
+			}
+		}
+	}
+	if tv, isConv := info.Types[call.Fun]; isConv && tv.IsType() {
+		return false
+	}
+	// only a call that can touch the stream matters here: any other call's error
+	// is, by the convention of error exits, an error
+	return len(e.exprTokensPeek(info, call)) > 0
+}
+
+// exprTokensPeek: the call is a primitive, an inlinable helper or hands on a
+// carrier (decided without extracting anything).
+func (e *Extractor) exprTokensPeek(info *types.Info, call *ast.CallExpr) []int {
+	f := e.calleeOf(info, call)
+	if f == nil {
+		return nil
+	}
+	name := core.FuncName(f)
+	if _, ok := e.S.Prims[name]; ok {
+		return []int{1}
+	}
+	if _, ok := e.S.BufPrims[name]; ok {
+		return []int{1}
+	}
+	if sig, ok := f.Type().(*types.Signature); ok && sig.Recv() != nil {
+		if _, isIface := sig.Recv().Type().Underlying().(*types.Interface); isIface {
+			if _, ok := e.S.IfacePrims[f.Name()]; ok {
+				return []int{1}
+			}
+			return nil
+		}
+	}
+	if e.S.Classify != nil {
+		if _, ok := e.S.Classify(info, call, f); ok {
+			return []int{1}
+		}
+	}
+	if e.S.Inline != nil && e.S.Inline(f) {
+		return []int{1}
+	}
+	return nil
 }
